@@ -429,6 +429,31 @@ Theorem C04_mk_edges_y_cells : forall above left al ar : option mbpix,
 Proof. exact mk_edges_y_cells. Qed.
 Print Assumptions C04_mk_edges_y_cells.
 
+(** doFilter's horizontal passes over the output cache as loops over the flat buffer
+    ("for j := 0; j < n; j++ { off := base + j*bps; ... p[off-4] .. p[off+3] ... }"): at the macroblock
+    edge (base = mbY*n*stride + mbX*n, i.e. cell (x0, y0)) the left and the current block of the
+    buffer become the grid model's edge_h of the two blocks; the inner passes (base + 4k: windows
+    starting 0, 4, 8 samples into the block; chroma one window) turn the current block into
+    inner_h.  [f]: any 8-sample edge function (length-preserving). *)
+Theorem C04_filter_hpass_edge_h : forall S Ht (f : list Z -> list Z),
+  (forall l, length l = 8%nat -> length (f l) = 8%nat) ->
+  forall x0 y0 (n : nat) c,
+  (4 <= n)%nat -> Z.of_nat n <= x0 -> x0 + Z.of_nat n <= S -> 0 <= y0 -> y0 + Z.of_nat n <= Ht ->
+  length c = Z.to_nat (S * Ht) ->
+  let c' := hpass S f x0 y0 (Z.of_nat n) c in
+  (block_at S c' (x0 - Z.of_nat n) y0 n, block_at S c' x0 y0 n) =
+  edge_h n f (block_at S c (x0 - Z.of_nat n) y0 n) (block_at S c x0 y0 n).
+Proof. exact hpass_edge_h. Qed.
+Print Assumptions C04_filter_hpass_edge_h.
+
+Theorem C04_filter_hpasses_inner_h : forall S Ht (f : list Z -> list Z),
+  (forall l, length l = 8%nat -> length (f l) = 8%nat) ->
+  forall x0 y0 (n : nat), 0 <= x0 -> x0 + Z.of_nat n <= S -> 0 <= y0 -> y0 + Z.of_nat n <= Ht ->
+  forall offs c, Forall (fun o => (o + 8 <= n)%nat) offs -> length c = Z.to_nat (S * Ht) ->
+  block_at S (hpasses S f x0 y0 n offs c) x0 y0 n = inner_h f offs (block_at S c x0 y0 n).
+Proof. exact hpasses_inner_h. Qed.
+Print Assumptions C04_filter_hpasses_inner_h.
+
 (** ** The encoder's token buffer (encode_token.go): record + replay = direct emission.  Tokens are
     recorded into pages of P entries (RecordToken adds a page when the current one is full), each
     non-skipped macroblock sets its start mark (MarkMBStart; skipped ones keep -1), and
